@@ -16,7 +16,8 @@ RULE = ('virtual clock; timeouts in {1,2,7,200,1000,1001,9999,10000} ms; (rx) st
         'and transmissions ended by completion, interruption, overflow, wrong sequence number, invalid frame, stop_receiving / '
         'stop_sending followed by silence of 3T with idle passes: no timeout error. Plus the exhaustive ms->ns conversion table 0..20000 ms '
         'evaluated inside Coq (PrimFloat, vm_compute) against the Python expression the harness uses. All cases replayed on the model.'
-        ' (tx, after_max_waits) the whole wftmax budget of Wait frames is used up in time, then the deadline passes: exactly one FlowControlTimeoutError whatever arrives afterwards. (blocking_rx) rxfn advances the virtual clock before handing over a Consecutive Frame (blocking read): the deadline is judged at hand-over; the model sees tick-then-process.')
+        ' (tx, after_max_waits) the whole wftmax budget of Wait frames is used up in time, then the deadline passes: exactly one FlowControlTimeoutError whatever arrives afterwards. (blocking_rx) rxfn advances the virtual clock before handing over a Consecutive Frame (blocking read): the deadline is judged at hand-over; the model sees tick-then-process.'
+        ' In the rx campaign the frame before the gap, when it asks for a Flow Control, is also processed by separate receive-only and transmit-only calls with time in between: the deadline runs from the emission of the Flow Control.')
 ASSUME = ['deadlines are measured at processing instants of the virtual clock (the latency inside one process() call is runtime)']
 
 TIMEOUTS = [1, 2, 7, 200, 1000, 1001, 9999, 10000]
